@@ -108,6 +108,15 @@ class Ctx:
         more specific answer (a deleted release both breaks pairing and lowers the instance count)."""
         self.shortfalls.append(msg)
 
+    def attempt(self, fn, *args, **kw):
+        """Run one clause's rule; an unrecognised shape there becomes a shortfall (exit 2 unless some
+        other clause finds a violation) instead of aborting the remaining clauses."""
+        try:
+            return fn(*args, **kw)
+        except AnalysisError as e:
+            self.soft_fail(f"{getattr(fn, '__name__', 'rule')}: {e}")
+            return None
+
     def end_of_run(self):
         if self.shortfalls and not any(o.status == "violation" for o in self.obs):
             raise AnalysisError("; ".join(self.shortfalls))
